@@ -27,7 +27,7 @@ CHECKS = {
 
 CHECKS.update({
  "C05": dict(technique="reference-model monitor over schema-evolution chains (older generated decoders on newer buffers; Python trace monitor, C guard pages + ASan)",
-   text="Chains of 2-3 schema versions built from the two permitted extension steps at any depth; values of the newest version encoded by the reference and the newest generated encoders are decoded by every older version's generated Python module and (sample) C driver on exact-fit buffers; oracle = projection of the value onto the older schema.",
+   text="Chains of 2-3 schema versions built from the two permitted extension steps at any depth; values of the newest version encoded by the reference and the newest generated encoders are decoded by every older version's generated Python module and (sample) C driver on exact-fit buffers (C also on the emulated big-endian host); each older Python decoder sees, in one process, senders of its own version, of every version between and of the newest; oracle = projection of the value onto the older schema.",
    note="Trusts ref.project/encode; Go runtime cannot be executed here (same formula by reading only).", ref="2/C05"),
  "C06": dict(technique="emulated big-endian host (clang -O0 IR with every 16/32/64-bit load/store/initializer byte-swapped, big-endian detection macros on) running the real runtime, generated code and -O branches against the reference, with failing little-endian controls + storage-layout emulation + valgrind-lackey access-width traces + -O big-endian branch differential",
    text="No big-endian CPU exists here. (0) An emulated big-endian host: the C sources are compiled to unoptimised LLVM IR, every multi-byte integer memory access and constant initializer is byte-swapped, and the program (runtime + generated code + driver, selected by the code's own __BYTE_ORDER__ test) runs natively on big-endian memory images - probe grid and generated schemas of every kind, standard mode and -O both/big, sign extension and prefixes judged, little-endian code on the same memory as failing control. (1-3) the -DBP_BIG_ENDIAN runtime runs on storage the driver lays out big-endian over the whole width x offset grid and traditional schemas; lackey traces show wire accesses are single bytes and -O big-endian struct accesses are whole fields (little-endian builds are the failing control); the -O big-endian branch is compared with the little-endian one and the reference.",
@@ -42,10 +42,10 @@ CHECKS.update({
    text="Each case injects one catalogue construct (a violation of a listed constraint or its valid twin on the other side of the limit) at a random scope/depth/file of a generated valid schema; the compiler must accept iff the construct is valid, reject with a ParserError citing the offending file and a line of the construct, and the real CLI must exit non-zero without writing files. Both directions are judged; every sixth case is the untouched valid schema.",
    note="The catalogue is my reading of the statement; constraints the statement does not list are not generated.", ref="2/C08"),
  "C11": dict(technique="reference-model monitor: independent scope resolver vs the parsed AST binding and the encoded layout, on purpose-built shadowing schemas",
-   text="Schemas reuse four type names across file scope, nested scopes and imported files with a distinct width per definition; every reference text is chosen first and resolved by an independent implementation of the documented rule; the compiler's binding (file, line, name), width and the generated Python encoder's bytes must agree; unresolvable references (also in imported files naming the importer's definitions) must be rejected at their line.",
+   text="Schemas reuse four type names across file scope, nested scopes and imported files with a distinct width per definition (some enums without fields); every reference text is chosen first and resolved by an independent implementation of the documented rule; the compiler's binding (file, line, name), width and the generated Python encoder's bytes must agree; unresolvable references (also in imported files naming the importer's definitions) must be rejected at their line.",
    note="References where 'stop at innermost declaring scope' and 'continue outward' differ are counted, not judged.", ref="2/C11"),
  "C12": dict(technique="metamorphic monitor over schema rewrites (both sides real generated code, Python always, C on a sample)",
-   text="Random sequences of the statement's rewrites (rename, reorder, alias introduce/inline, nest/un-nest, move to import, literal->constant expression, renumber, layout noise) applied to generated schemas; encoded bytes of mapped values must be identical.",
+   text="Random sequences of the statement's rewrites (rename, reorder, alias introduce/inline, nest/un-nest, move to import, literal->constant expression incl. operands beyond 2^53/2^64 and unparenthesised chains, renumber, layout noise incl. several statements per line) applied to generated schemas; encoded bytes of mapped values must be identical.",
    note="Trusts vlib/rewrite.py to preserve numbers and resolved types.", ref="2/C12"),
  "C13": dict(technique="reference evaluator for constant expressions + read-back of emitted literals (Python import, compiled C program, Go lexical decoding)",
    text="Expression trees with minimal parentheses (precedence/associativity decide), hex/decimal literals, references across imports, all boolean spellings, strings with every escape and non-ASCII; parsed values, capacities and option values compared with an own evaluator; emitted literals read back in all three languages.",
@@ -57,13 +57,13 @@ CHECKS.update({
 
 CHECKS.update({
  "C09": dict(technique="fuzzing monitor: token/character/byte mutation, random token strings, truncation, hostile shapes (depth, size, integers around the print limit); exception-class and per-input alarm watchdog; render of every accepted text; CLI traceback scan (+ atheris in thorough)",
-   text="Tens of thousands of mutated and hostile inputs per run go through the real parser; anything escaping that is not a ParserError/OSError, or an input on which the watched executor process twice burns 40 s of CPU, is a violation; byte-level damaged files (not UTF-8) go through parse(path) as main and as imported file; every accepted text is rendered in all languages and modes and any non-RendererError is a violation.",
+   text="Tens of thousands of mutated and hostile inputs per run go through the real parser; anything escaping that is not a ParserError/OSError, or an input on which the watched executor process twice burns 40 s of CPU, is a violation (hostile shapes include small DAGs whose tree expansion is exponential); byte-level damaged files (not UTF-8) go through parse(path) as main and as imported file; every accepted text is rendered in all languages and modes and any non-RendererError is a violation.",
    note="Bounded by generator/mutator reach; thorough adds coverage-guided fuzzing; two recorded findings (recursion limit, alias size beyond the print limit).", ref="2/C09"),
  "C10": dict(technique="toolchain-as-oracle monitor: gcc -std=c99, link, g++, C vs C++ layout programs, Python ast/import/instantiate/execute, static Go checker",
    text="Composition-heavy generated schemas are rendered in every language/mode and handed to the real toolchains: per-file C99 compile, link with a caller of every API function (duplicate symbols), the same caller built by g++ through the header, sizeof/offsetof tables from real C and C++ programs, existence of #include targets, Python duplicate declarations/import/instantiation/method execution, and the static Go requirements via my Go parser.",
    note="Go only statically (no toolchain); recorded findings: empty struct size in C++, unused Go imports, Go transitive imports, C API function vs typedef, Python class-body rebinding, Python import of a hyphenated file name, one output file for two files with one base name.", ref="2/C10"),
  "C15": dict(technique="reference naming model vs names observed in .h text, nm symbol tables, parsed Go, imported Python modules; prefix twin differential (layout programs + driver bytes)",
-   text="The exact sets of declared struct/typedef/function/macro names, exported symbols, Go declarations and Python public names are compared with a naming model written from the docs; with c.name_prefix the un-prefixed twin must give identical Go/Python output, struct members, layout and encoded bytes.",
+   text="The exact sets of declared struct/typedef/function/macro names, exported symbols, Go declarations and Python public names are compared with a naming model written from the docs; with c.name_prefix the un-prefixed twin must give identical Go/Python output, struct members, layout and encoded bytes, and every prefixed C name must be the prefix in front of the very name the twin declares (also for digit-bearing type names, whose own spelling is compared normalised).",
    note="Names restricted to plain style-guide words; nested Go enum/alias names compared normalised.", ref="2/C15"),
  "C17": dict(technique="differential monitor over CLI invocations (-O/-F/--endian) with textual function extraction",
    text="Real CLI invocations are compared with each other: refusals (extensible marker anywhere incl. imports, py -O, -F without -O) must be diagnostics with non-zero exit and no file; -O -F must define exactly the named messages' functions, textually identical to the unfiltered output (random subsets and, for container/contained message pairs, each one alone and both), with everything else unchanged; --endian may change only bodies and the detection preamble.",
@@ -72,7 +72,7 @@ CHECKS.update({
    text="Per message: struct fields/types/tags, size constant and Size(), the resolved BpProcessor() tree (vs model and vs the tree the imported Python module builds) and the four accessor switch tables; the five pure Go runtime helpers are evaluated over their whole reachable domain against the executed Python helpers.",
    note="Go is parsed/evaluated by vlib/sut_gotext.py (trusted), never executed.", ref="2/C19"),
  "C20": dict(technique="position oracle from the printer (line/column of every name token) + lint stderr monitor + C08 catalogue for error lines + CLI -q/-c differential",
-   text="Conforming schemas must lint clean, each clear naming violation / zero-less enum must be warned about at its file:line, every definition/reference position must equal the name token's position (also on the first line), parser errors must cite a line of the offending construct under heavy layout noise, output must be identical with and without -q and -c must fail exactly on error or warning.",
+   text="Conforming schemas must lint clean, each clear naming violation / zero-less enum must be warned about at its file:line (also when several offending definitions share one source line), every definition/reference position must equal the name token's position (also on the first line), parser errors must cite a line of the offending construct under heavy layout noise, output must be identical with and without -q and -c must fail exactly on error or warning.",
    note="Only clear case violations are asserted to warn; one recorded finding (typedef deprecation warning not counted by -c).", ref="2/C20"),
 })
 
